@@ -17,3 +17,5 @@ PROP = {'title': 'raw_vector and buffer behave like std::vector for every operat
                  'after checking size<=capacity',
                  'positions outside [begin,end], self-range insertion and written(k>write_size) are preconditions and outside the alphabet',
                  '128-bit hashes of canonical strings are used for deduplication (collision probability negligible)']}
+
+PROP['rule'] += ' dynamic_array<int, counting allocator> for every size of the growth lattice (0..8193) and both constructors: size(), [data, data_end) is exactly the allocated block (written and read back under ASan), const accessors, block returned once with the same size (also for size 0).'
